@@ -247,8 +247,22 @@ func (app *App) blockBeginner() blockBeginner {
 // mempool connection: for checking if transactions should be relayed before they are committed
 func (app *App) txChecker() txChecker {
 
-	return func(msg RequestCheckTx) ResponseCheckTx {
+	return func(msg RequestCheckTx) (result ResponseCheckTx) {
 		defer app.handlePanic()
+		// no transaction may stop the node: a panic raised while checking one is answered with an
+		// error code, its writes to the check state are dropped
+		defer func() {
+			if r := recover(); r != nil {
+				app.logger.Error("panic while checking tx: ", r)
+				debug.PrintStack()
+				app.Context.check.DiscardTxSession()
+				app.Context.stateDB.DiscardTx()
+				result = ResponseCheckTx{
+					Code: CodeNotOK.uint32(),
+					Log:  fmt.Sprintf("transaction caused a panic: %v", r),
+				}
+			}
+		}()
 
 		if app.VerifyCache(msg.Tx) {
 			loginfo := fmt.Sprintf("checkTx duplicated tx: %s", hex.EncodeToString(utils.GetTransactionHash(msg.Tx)))
@@ -293,7 +307,7 @@ func (app *App) txChecker() txChecker {
 
 		logString := marshalLog(ok, response, feeResponse)
 
-		result := ResponseCheckTx{
+		result = ResponseCheckTx{
 			Code:      getCode(ok && feeOk).uint32(),
 			Data:      response.Data,
 			Log:       logString,
@@ -318,8 +332,23 @@ func (app *App) txChecker() txChecker {
 
 func (app *App) txDeliverer() txDeliverer {
 
-	return func(msg RequestDeliverTx) ResponseDeliverTx {
+	return func(msg RequestDeliverTx) (result ResponseDeliverTx) {
 		defer app.handlePanic()
+		// no transaction may stop the node: a panic raised while executing one is answered with an
+		// error code and the transaction is dropped like any other failed transaction (the same
+		// input panics on every node, so the result is the same everywhere)
+		defer func() {
+			if r := recover(); r != nil {
+				app.logger.Error("panic while delivering tx: ", r)
+				debug.PrintStack()
+				app.Context.deliver.DiscardTxSession()
+				app.Context.stateDB.DiscardTx()
+				result = ResponseDeliverTx{
+					Code: CodeNotOK.uint32(),
+					Log:  fmt.Sprintf("transaction caused a panic: %v", r),
+				}
+			}
+		}()
 
 		txHashBytes := utils.GetTransactionHash(msg.Tx)
 		app.Context.stateDB.Prepare(ethcmn.BytesToHash(txHashBytes))
@@ -367,7 +396,7 @@ func (app *App) txDeliverer() txDeliverer {
 
 		logString := marshalLog(ok, response, feeResponse)
 
-		result := ResponseDeliverTx{
+		result = ResponseDeliverTx{
 			Code:      getCode(ok && feeOk).uint32(),
 			Data:      response.Data,
 			Log:       logString,
